@@ -38,6 +38,7 @@ func runC09(b *Batch) {
 			c09Background(b, i)
 		} else {
 			c09Sequence(b, i)
+			collectGarbage(i)
 		}
 	}
 }
@@ -348,6 +349,7 @@ func c09Background(b *Batch, idx int) {
 	sc := newSched(false, "random", rng)
 	sc.delayProb = 0
 	r := newFoRun(cfg, keys, sc)
+	defer r.release()
 	r.gateBG = make(chan struct{})
 	r.bgEntered = make(chan int, 4)
 	stale := r.prepopulate(rng, 0, "stale")
